@@ -141,6 +141,30 @@ def c01(R):
                 if kind == "pi": dv = float(np.abs(np.asarray(st.values) - vd).max()); lim = eps / g; what = "values not within eps/gamma of the policy's own value"
                 else: dv = float(np.abs(np.asarray(st.values) - vstar).max()); lim = eps; what = "values not within eps of the optimal values"
                 if dv > lim * (1 + 1e-6) + 1e-9: R.fail("c01.values_near", what, inp, dv, lim)
+    # "on convergence" includes runs that were restored from a checkpoint and continued (the bound is about the state the solver stops in)
+    import tempfile, shutil, os
+    from mdpax.problems import Forest
+    base = tempfile.mkdtemp(prefix="c01_", dir=os.environ.get("VERIF_SCRATCH"))
+    try:
+        g, eps = 0.9, 1e-3; fp = Forest(S=9, r1=10.0, p=0.15); Pm, Rm = (np.asarray(x) for x in fp.build_transition_and_reward_matrices()); N = Pm.shape[1]
+        vs = np.zeros(N)
+        for _ in range(100000):
+            vn = (Rm + g * np.einsum("asn,n->sa", Pm, vs)).max(1)
+            if np.abs(vn - vs).max() < 1e-13: break
+            vs = vn
+        def pvalue(pol): return np.linalg.solve(np.eye(N) - g * Pm[pol, np.arange(N), :], Rm[np.arange(N), pol])
+        for kind, cls, kw, bound in [("vi", VI, dict(convergence_test="span"), eps), ("pi", PI, dict(convergence_test="span", max_eval_iter=400), eps / g), ("sa", SA, dict(convergence_test="max_diff", max_batch_size=4, shuffle_states=True, random_seed=7), 2 * g * eps / (1 - g))]:
+            mk = lambda **extra: cls(Forest(S=9, r1=10.0, p=0.15), gamma=g, epsilon=eps, verbose=0, **kw, **extra)
+            nstar = int(mk().solve(3000).info.iteration)
+            for k in sorted({max(nstar - 1, 1), max(nstar // 2, 1)}):
+                d = os.path.join(base, f"{kind}_{k}"); s1 = mk(checkpoint_dir=d, checkpoint_frequency=1, max_checkpoints=1, enable_async_checkpointing=False); s1.solve(k)
+                inp = dict(problem="Forest(S=9,r1=10,p=0.15)", solver=kind, gamma=g, epsilon=eps, uninterrupted_stop=nstar, restored_at=k, **{a_: b_ for a_, b_ in kw.items()}); R.case(("restored", kind, k), inp)
+                s2 = cls.restore(d, new_checkpoint_dir=d + "_r"); st2 = s2.solve(3000)
+                if int(st2.info.iteration) >= k + 3000: continue
+                gap = float((vs - pvalue(np.asarray(st2.policy)[:, 0])).max())
+                if gap > bound * (1 + 1e-6) + 1e-9: R.fail("c01.policy_near_optimal_after_restore", f"a run restored at iteration k and continued to convergence returns a policy that misses the a-priori bound {bound:.3g}", inp, gap, bound)
+    finally:
+        shutil.rmtree(base, ignore_errors=True)
     return R
 
 # ----------------------------------------------------------------------------------------------------------------- C04
